@@ -77,6 +77,13 @@ T = {
             'identity-keyed graph, default mode, one-node component without self-loop whose node has an edge to a distinct but ==-equal object',
             'C20 quick: C20:acyclic-component-reported (identity-keyed nodes whose == is value based)',
             'caught at once; patch.diff was rebased by hand onto the C20 fix commit 2c4c49e (same line)'),
+ 'C13-m1': ('C13', 'TestResult._restoreStdStreams returns early when sys.stdout is not the capture buffer ("idempotency shortcut")',
+            '--buffer and a test that has itself replaced sys.stdout (redirect in setUp, restored in tearDown / never) at the moment a result event or stopTest arrives',
+            'C13 quick: C13:not-restored|between-tests, C13:lost',
+            'MISSED at first (no scripted test touched the std streams itself); caught after worlds got redirect / unredirect actions and StdStreams.tla per-stream cur / saved state (deviation RestoreOnlyIfInstalled)'),
+ 'C13-m2': ('C13', 'TestResult.addSubTest re-arms the capture after a failing subtest; later output of the failing test is dropped by stopTest',
+            '--buffer, a test with a failing subtest that writes afterwards without a further failure event',
+            'C13 quick: C13:lost', 'caught at once'),
 }
 
 
